@@ -37,27 +37,39 @@ Proof.
   cbn [Wp.wp]. intros b. destruct b; cbn [vtrue]; assumption.
 Qed.
 
-Lemma wp_cs_prog m items o H K Qr Qt QF :
-  (forall v, Qr v H K) -> Qt H K -> wp (cs_prog m items o) H K Qr Qt QF.
+(* the locks behind the positions of [items] are held in mode m *)
+Definition covers (m : mode) (items : list gitem) (H : list hold) : Prop :=
+  forall x, In x (gleaves items) -> In (hold_of m x) H.
+
+Lemma covers_perm m items H : Permutation H (holds_of m (gleaves items)) -> covers m items H.
 Proof.
-  intros Q T. destruct o as [pos|pos| |]; cbn [cs_prog].
-  - destruct (nth_leaf items pos) as [[k l]|]; [|apply Q]. cbn [Wp.wp op_]. intros n. apply Q.
-  - destruct m; [apply Q|]. destruct (nth_leaf items pos) as [[k l]|]; [|apply Q]. cbn [Wp.wp op_]. apply Q.
+  intros P x Hx. eapply Permutation_in; [symmetry; exact P|]. unfold holds_of. now apply in_map.
+Qed.
+
+Lemma wp_cs_prog m items o H K Qr Qt QF :
+  covers m items H -> (forall v, Qr v H K) -> Qt H K -> wp (cs_prog m items o) H K Qr Qt QF.
+Proof.
+  intros CV Q T. destruct o as [pos|pos| |]; cbn [cs_prog].
+  - destruct (nth_leaf items pos) as [[k l]|] eqn:N; [|apply Q]. cbn [Wp.wp op_]. split; [|intros n; apply Q].
+    exists (hx k m). apply (CV (k, l)). unfold nth_leaf in N. now apply nth_error_In in N.
+  - destruct m; [apply Q|]. destruct (nth_leaf items pos) as [[k l]|] eqn:N; [|apply Q]. cbn [Wp.wp op_]. split; [|apply Q].
+    unfold nth_leaf in N. apply nth_error_In in N. specialize (CV (k, l) N). unfold hold_of in CV. cbn [fst snd] in CV.
+    destruct k; exact CV.
   - exact T.
   - cbn [Wp.wp op_]. apply Q.
 Qed.
 
 Lemma wp_cs_list m items body H K Qr Qt QF :
-  Qr VUnit H K -> Qt H K -> wp (seqs (map (cs_prog m items) body)) H K Qr Qt QF.
+  covers m items H -> Qr VUnit H K -> Qt H K -> wp (seqs (map (cs_prog m items) body)) H K Qr Qt QF.
 Proof.
-  intros Q T. induction body as [|o r IH]; cbn [map seqs]; [exact Q|].
-  apply wp_then. apply wp_cs_prog; [intros _; exact IH|exact T].
+  intros CV Q T. induction body as [|o r IH]; cbn [map seqs]; [exact Q|].
+  apply wp_then. apply wp_cs_prog; [exact CV|intros _; exact IH|exact T].
 Qed.
 
 Lemma wp_closure m items body H K Qr Qt QF :
-  Qr VUnit H K -> Qt H K -> wp (closure m items body) H K Qr Qt QF.
+  covers m items H -> Qr VUnit H K -> Qt H K -> wp (closure m items body) H K Qr Qt QF.
 Proof.
-  intros Q T. unfold closure. apply wp_then. cbn [Wp.wp op_]. apply wp_then. apply wp_see_all.
+  intros CV Q T. unfold closure. apply wp_then. cbn [Wp.wp op_]. apply wp_then. apply wp_see_all.
   apply wp_cs_list; assumption.
 Qed.
 
@@ -87,7 +99,7 @@ Lemma wp_fmt_leaf k l H K Qr Qt QF :
   Qr (VNat 0) H K -> Qr (VNat 1) H K -> wp (fmt_leaf k l) H K Qr Qt QF.
 Proof.
   intros Q0 Q1. unfold fmt_leaf. cbn [Wp.wp]. apply wp_leaf_try; cbn [vtrue].
-  - apply wp_then. cbn [Wp.wp op_]. intros n. apply wp_then. apply wp_leaf_unlock. rewrite rem1_head. exact Q0.
+  - apply wp_then. cbn [Wp.wp op_]. split; [eexists; left; reflexivity|]. intros n. apply wp_then. apply wp_leaf_unlock. rewrite rem1_head. exact Q0.
   - exact Q1.
 Qed.
 
@@ -100,18 +112,22 @@ Qed.
 
 (* the scoped calls, from the acquisition on *)
 Lemma wp_scoped_rest (m : mode) (s : shape) (a : alg) (lent : bool) (body : list csop) (acq : prog) H0 K Qr Qt QF :
+  Permutation (alg_leaves a) (gleaves (gitems s)) ->
   (forall (Qr' : val -> post) (Qt' : post), (forall H', Permutation H' (holds_of m (alg_leaves a)) -> Qr' VUnit H' K) -> wp acq H0 K Qr' Qt' QF) ->
   Qr (VNat 0) [] (if lent then K else false) ->
   Qt [] (if lent then K else false) ->
   wp (scoped_rest m s a lent body acq) H0 K Qr Qt QF.
 Proof.
-  intros ACQ Q T. unfold scoped_rest. destruct (root_poison s) as [p|].
+  intros PL ACQ Q T. unfold scoped_rest.
+  assert (CV : forall H', Permutation H' (holds_of m (alg_leaves a)) -> covers m (gitems s) H').
+  { intros H' P. apply covers_perm. rewrite P. unfold holds_of. now apply Permutation_map. }
+  destruct (root_poison s) as [p|].
   - cbn [Wp.wp]. apply wp_with_key. apply wp_then. apply ACQ. intros H' P. apply wp_then. cbn [Wp.wp].
-    apply wp_closure.
+    apply wp_closure; [now apply CV| |].
     + apply wp_raw_unlock. rewrite (rel_all_perm_nil _ _ P). destruct lent; cbn [negb]; exact Q.
     + apply wp_then. cbn [Wp.wp op_]. apply wp_raw_unlock. rewrite (rel_all_perm_nil _ _ P). destruct lent; cbn [negb]; exact T.
   - cbn [Wp.wp]. apply wp_with_key. apply wp_then. apply ACQ. intros H' P. cbn [Wp.wp].
-    apply wp_closure.
+    apply wp_closure; [now apply CV| |].
     + apply wp_then. apply wp_raw_unlock. rewrite (rel_all_perm_nil _ _ P). cbn [Wp.wp]. destruct lent; cbn [negb]; exact Q.
     + apply wp_raw_unlock. rewrite (rel_all_perm_nil _ _ P). destruct lent; cbn [negb]; exact T.
 Qed.
@@ -176,12 +192,14 @@ Proof.
       * intros H' P. apply Permutation_sym, Permutation_nil in P. subst H'. cbn [vtrue Wp.wp api_fin]. fin_nostop. exact T.
     + (* scoped *)
       apply wp_scoped_rest.
+      * rewrite gleaves_gitems. now apply alg_refs_leaves.
       * intros Qr' Qt' Q. apply wp_raw_lock; [exact AOK|apply FUEL|exact Q].
       * cbn [api_fin]. fin_nostop. cbn [fst]. apply tb_none; [reflexivity|]. destruct lent; [reflexivity|discriminate].
       * cbn [api_fin is_lent]. fin_nostop. cbn [fst]. apply tb_none; [reflexivity|]. destruct lent; [reflexivity|discriminate].
     + (* scoped try *)
       cbn [Wp.wp]. apply wp_with_key. apply wp_raw_try.
       * intros H' P. rewrite app_nil_r in P. cbn [vtrue]. apply wp_scoped_rest.
+        -- rewrite gleaves_gitems. now apply alg_refs_leaves.
         -- intros Qr' Qt' Q. cbn [Wp.wp skip]. apply Q. exact P.
         -- cbn [api_fin]. fin_nostop. cbn [fst]. apply tb_none; [reflexivity|]. destruct lent; [reflexivity|discriminate].
         -- cbn [api_fin is_lent]. fin_nostop. cbn [fst]. apply tb_none; [reflexivity|]. destruct lent; [reflexivity|discriminate].
@@ -194,9 +212,11 @@ Proof.
     unfold ghold in P. rewrite (rel_all_perm_nil _ _ P). cbn [api_fin]. fin_nostop. cbn [fst]. apply tb_none; [reflexivity|auto].
   - (* AGuardForget *) contradiction.
   - (* AGuardRead *) destruct (guard lc) as [g|] eqn:G; [|discriminate]. injection E as <-.
-    apply (wp_cs_prog (g_mode g) (g_items g) (CRead pos)); [intros v|]; cbn [api_fin]; fin_nostop; exact T.
+    destruct (tb_guard lc g H K T G) as [PG _].
+    apply (wp_cs_prog (g_mode g) (g_items g) (CRead pos)); [now apply covers_perm|intros v|]; cbn [api_fin]; fin_nostop; exact T.
   - (* AGuardWrite *) destruct (guard lc) as [g|] eqn:G; [|discriminate]. injection E as <-.
-    apply (wp_cs_prog (g_mode g) (g_items g) (CWrite pos)); [intros v|]; cbn [api_fin]; fin_nostop; exact T.
+    destruct (tb_guard lc g H K T G) as [PG _].
+    apply (wp_cs_prog (g_mode g) (g_items g) (CWrite pos)); [now apply covers_perm|intros v|]; cbn [api_fin]; fin_nostop; exact T.
   - (* APanic *) destruct (guard lc) as [g|] eqn:G; injection E as <-; cbn [Wp.wp].
     + destruct (tb_guard lc g H K T G) as [P [Hk Kt]]. apply wp_with_key. apply wp_drop_items.
       unfold ghold in P. rewrite (rel_all_perm_nil _ _ P). cbn [Wp.wp api_fin]. fin_nostop. cbn [fst]. apply tb_none; [reflexivity|discriminate].
